@@ -90,7 +90,8 @@ def make_window_end(aligned, reach=False):
     return fn
 
 
-def make_ticks(nser, nticks, fail=False, reach=False):
+def make_ticks(nser, nticks, fail=False, reach=False, add_in_sink=False):
+    """add_in_sink: the last series is added from inside a sink, i.e. while resample() is suspended in its gather over all series."""
     def fn(ex):
         now = ex.dt("now", 0, 10**15)
         al = ex.dt("align_to", 0, 10**15)
@@ -105,11 +106,16 @@ def make_ticks(nser, nticks, fail=False, reach=False):
             await asyncio.Future()
             yield None  # pragma: no cover
 
+        holder = {}
+
         def mk_sink(i):
             async def sink(s):
                 if fail and i == 0 and tick_no[0] == fail_tick:
                     raise RuntimeError("sink failed")
                 got[i].append(s.timestamp)
+                if add_in_sink and i == 0 and tick_no[0] == 0:
+                    await asyncio.sleep(0)   # the gather is pending: a series is added right now
+                    holder["r"].add_timeseries(f"s{nser - 1}", holder["srcs"][nser - 1], mk_sink(nser - 1))
             return sink
 
         async def scenario():
@@ -117,10 +123,11 @@ def make_ticks(nser, nticks, fail=False, reach=False):
             r = rs.Resampler(cfg)
             w0 = r._window_end
             srcs = [src() for _ in range(nser)]
+            holder["r"], holder["srcs"] = r, srcs
             for i in range(nser - 1):
                 r.add_timeseries(f"s{i}", srcs[i], mk_sink(i))
             for k in range(nticks):
-                if k == 1:
+                if k == 1 and not add_in_sink:
                     r.add_timeseries(f"s{nser - 1}", srcs[nser - 1], mk_sink(nser - 1))  # series added while running
                 tick_no[0] = k
                 r._timer.drifts = [drifts[k]]
@@ -156,6 +163,8 @@ def instances(tier):
         I("window-end-unaligned", "make_window_end", (False,), "align_to=None", budget_s=100, validate_every=1),
         I("ticks-3x4", "make_ticks", (3, 4), "3 series (one added after the first tick), 4 ticks, symbolic drifts", budget_s=200, validate_every=5),
         I("ticks-3x4-sinkfail", "make_ticks", (3, 4, True), "a sink raises at a symbolic tick, series removed, loop restarted", budget_s=200, validate_every=5),
+        I("ticks-3x4-add-during-gather", "make_ticks", (3, 4, False, False, True), "a series is added while resample() is suspended in its gather (from a sink)",
+          budget_s=200, validate_every=5),
     ]
     if tier != "quick":
         out += [I("ticks-4x6", "make_ticks", (4, 6), "4 series, 6 ticks", budget_s=400, validate_every=20),
